@@ -90,6 +90,7 @@ func nontrivial(p *model.Project, l *model.Layout) bool {
 
 var notePool = []string{"", "", "a note", "note with - dash", "Ünïcode ✓", "quotes \" and 'single'", "star * slash / x", "123", "trailing dash -", "two  blanks",
 	// only space, TAB, CR and LF are blanks to the language: other Unicode spaces and controls belong to the note
+	"- a bullet", "-5 is the lowest value", "-> see b", "--", "- ", "-",
 	"\u00a0indented", "価格\u3000", "\u2009thin\u2009", "see page 2\f", "\vup", "\u0085nel", "\u3000"}
 
 var bigUints = []string{"0", "1", "7", "007", "4294967296", "18446744073709551615", "18446744073709551616", "18446744073709551617", "99999999999999999999999999999"}
